@@ -32,6 +32,7 @@ const (
 	Drop                      // close the connection without replying
 	Stall                     // go silent, hold the connection open
 	Raw                       // write Text verbatim (not an SMTP reply), e.g. garbage
+	Mute                      // never reply again, but keep reading (and recording) what the client sends
 )
 
 type Action struct {
@@ -410,6 +411,17 @@ func (s *Session) act(rec *CmdRecord, a Action) (handled bool, err error) {
 		s.record(rec)
 		<-s.stop
 		return true, errStop
+	case Mute:
+		rec.Stalled = true
+		s.record(rec)
+		for {
+			line, err := s.readLine()
+			if err != nil {
+				<-s.stop
+				return true, errStop
+			}
+			s.record(&CmdRecord{Index: s.step, Verb: "MUTED", Line: line, TLS: s.tlsOn(), StateBefore: "muted"})
+		}
 	case Raw:
 		rec.ReplyCode, rec.Reply = 0, a.Text
 		s.record(rec)
